@@ -726,6 +726,18 @@ W.contract(Contract('ENFA.get_difference', [('self', ENFA), ('other', ENFA)], re
                                     ForAll([p], Implies(e.other.Q[p], e.get('$old.other').Q[p])),
                                     ForAll([a], e.other.Sig[a] == Or(And(e.get('$old.other').Sig[a], e.other.Sig[a]), done[a])))}))
 
+# ------------------------------------------------------------------ add_transitions: the transitions of the list, one add_transition each
+Trip = TTuple(St, Sy, St); BagTrip = TBag(Trip)
+def trip(pp, aa, qq): return Trip.make(_0=Sym(St, pp), _1=Sym(Sy, aa), _2=Sym(St, qq)).term
+def at_all(A, B, cov):
+    """B is A plus the covered triples (states and non-epsilon symbols of the triples registered)"""
+    return And(ForAll([p, a, q], B.T[p, a, q] == Or(A.T[p, a, q], cov(p, a, q))),
+               ForAll([x], B.Q[x] == Or(A.Q[x], Exists([p, a, q], And(cov(p, a, q), Or(x == p, x == q))))),
+               ForAll([a], B.Sig[a] == Or(A.Sig[a], And(a != EPS, Exists([p, q], cov(p, a, q))))), B.I == A.I, B.F == A.F)
+W.contract(Contract('ENFA.add_transitions', [('self', ENFA), ('transitions_list', BagTrip)], ret=TInt, modifies=('self',),
+    ensures=lambda o, r, n: at_all(o.self, n.self, lambda pp, aa, qq: o.transitions_list[trip(pp, aa, qq)] > 0),
+    loops={'0': lambda e, done: at_all(e.get('$old.self'), e.self, lambda pp, aa, qq: done[trip(pp, aa, qq)] > 0)}))
+
 # ------------------------------------------------------------------ is_acyclic: the answer False is sound
 # The search keeps pairs (state, set of the states on the path that led to it).  Proved: every pair in the work list has a state reachable from a start
 # state and every state of its path set is itself reachable and reaches the state of the pair in at least one step; hence when the state is found in
@@ -781,7 +793,7 @@ TARGETS.update({'NFA.accepts': (_PN, 'NondeterministicFiniteAutomaton.accepts'),
                 'DFA.accepts': (_PD, 'DeterministicFiniteAutomaton.accepts'), 'DFA.is_deterministic': (_PD, 'DeterministicFiniteAutomaton.is_deterministic')})
 TARGETS.update({f'ENFA.{m}': (_PF, f'FiniteAutomaton.{m}') for m in ['_get_next_states_from', '_get_reachable_states', '_get_states_leading_to_final']})
 TARGETS.update({'ENFA.to_fst': (_PF, 'FiniteAutomaton.to_fst')})
-TARGETS.update({'ENFA.is_acyclic': (_PF, 'FiniteAutomaton.is_acyclic')})
+TARGETS.update({'ENFA.is_acyclic': (_PF, 'FiniteAutomaton.is_acyclic'), 'ENFA.add_transitions': (_PF, 'FiniteAutomaton.add_transitions')})
 TARGETS.update({f'ENFA.{m}': (_P, f'EpsilonNFA.{m}') for m in ['__neg__', '__and__', '__sub__', '__invert__', '__copy__', '__bool__']})
 TARGETS.update({'DFA.copy': (_PD, 'DeterministicFiniteAutomaton.copy'), 'DFA.to_deterministic': (_PD, 'DeterministicFiniteAutomaton.to_deterministic'),
                 'NFA.to_deterministic': (_PN, 'NondeterministicFiniteAutomaton.to_deterministic')})
